@@ -54,6 +54,11 @@ def run(ctx):
                 sch += [{"kind": "random", "seed": ctx.seed * 1000 + si * 10 + k, "k": 0, "c": 0} for k in range(nr)]
                 jobs.append({"stream": stream, "cache": cache, "scheds": sch})
                 nsched += len(sch)
+            # the same stream through the option plumbing: a real tcp server / the library's own client configured with the stream's
+            # maximum message size, over loopback sockets (one write)
+            if si != 8:
+                jobs.append({"stream": stream, "cache": 2048, "scheds": [{"kind": "server", "k": 0, "c": 0}, {"kind": "dial", "k": 0, "c": 0}]})
+                nsched += 2
     jpath = os.path.join(ctx.work, "jobs.json")
     with open(jpath, "w") as f:
         json.dump(jobs, f)
